@@ -1063,7 +1063,10 @@ func (e *Engine) convert(f *frame, in *ssa.Convert) Value {
 					}
 					return e.b.BVu(math.Float64bits(fv), 64)
 				}
-				panic(unsupported("symbolic int->float conversion"))
+				if floatWidth(tb) == 32 {
+					return e.b.FpCvt(e.b.FpFromInt(t, isSigned(from)), 32)
+				}
+				return e.b.FpFromInt(t, isSigned(from))
 			case ti&types.IsInteger != 0 && fi&types.IsFloat != 0:
 				t := e.term(x)
 				if t.IsConst() {
@@ -1073,7 +1076,14 @@ func (e *Engine) convert(f *frame, in *ssa.Convert) Value {
 					}
 					return e.b.BVu(uint64(fv), intWidth(tb))
 				}
-				panic(unsupported("symbolic float->int conversion"))
+				if t.sort.W == 64 && isSigned(to) {
+					r := e.b.FpToS(t)
+					if w := intWidth(tb); w < 64 {
+						return e.b.Extract(r, w-1, 0)
+					}
+					return r
+				}
+				panic(unsupported("symbolic float->int conversion (unsigned or float32)"))
 			case ti&types.IsString != 0 && fi&types.IsInteger != 0:
 				return e.runeToString(e.term(x), isSigned(from))
 			case tb.Kind() == types.UnsafePointer || fb.Kind() == types.UnsafePointer:
@@ -1240,6 +1250,12 @@ func (e *Engine) binop(f *frame, in *ssa.BinOp) Value {
 					return b.BVu(uint64(math.Float32bits(float32(r))), 32)
 				}
 				return b.BVu(math.Float64bits(r), 64)
+			}
+			if xv.sort.W == 64 && (in.Op == token.QUO || in.Op == token.MUL) {
+				if in.Op == token.QUO {
+					return b.FpBin(OFpDiv, xv, yt)
+				}
+				return b.FpBin(OFpMul, xv, yt)
 			}
 			panic(unsupported("symbolic float arithmetic " + in.Op.String()))
 		}
